@@ -134,7 +134,8 @@ func (op *pipelineOp) exec(fm *Frame) Exception {
 			nextIn = &Port{
 				File: reader, Chan: ch,
 				// Store in input port for ease of retrieval later
-				sendStop: sendStop, sendError: sendError, readerGone: readerGone}
+				sendStop: sendStop, sendError: sendError, readerGone: readerGone,
+				pipeInput: true}
 		}
 		f := func(form *formOp, fops []formOwnedPort, pexc *Exception) {
 			exc := form.exec(newFm, &fops)
@@ -457,7 +458,10 @@ func (op *redirOp) exec(fm *Frame, fops *[]formOwnedPort) Exception {
 			// close
 			release()
 			*dstPort = &Port{
-				// Ensure that writing to value output throws an exception
+				// Ensure that reading value input produces nothing rather
+				// than blocking, and that writing to value output throws an
+				// exception
+				Chan:     ClosedChan,
 				sendStop: closedSendStop, sendError: &ErrPortDoesNotSupportValueOutput}
 		case src >= len(fm.ports) || fm.ports[src] == nil:
 			return fm.errorp(op, InvalidFD{FD: src})
